@@ -23,43 +23,60 @@ func (c08) Gen(tier string, seed int64, emit0 func([]Ev)) {
 		n = 150000
 	}
 	for i := 0; i < n; i++ {
-		s := rndSig(r)
 		sel := i % 25
 		if sel == 19 && tier == "thorough" && i%500 != 19 {
 			sel = 0 // long sections are expensive to validate: 300 of them in the thorough tier
 		}
-		switch sel {
-		case 19:
-			// sections longer than 1023 bytes (section_length is a 12-bit field, up to 4093):
-			// several descriptors with long UPIDs, or a component splice with many components
-			target := []int{1024, 1030, 1100, 1500, 2048, 2100, 3000, 4000}[r.Intn(8)]
-			if tier != "thorough" && r.Intn(3) != 0 {
-				target = 1024 + r.Intn(300)
-			}
-			growSig(r, &s, target)
-		case 20:
-			s.Cmd = absCmd{Kind: "other", Type: []int{4, 7, 255, 1, 8}[r.Intn(5)], Body: rndBytes(r, r.Intn(12))}
-		case 21:
-			s.Enc = true
-		case 22:
-			s.TableId = []int{0x00, 0x02, 0xfb, 0xfd, 0xff}[r.Intn(5)]
-		case 23:
-			d := rndSeg(r)
-			d.Ident = [][]byte{[]byte("CUEJ"), []byte("cuei"), {0, 0, 0, 0}, []byte("DVBI")}[r.Intn(4)]
-			s.Descs = append(s.Descs, d)
-		case 24:
-			if r.Intn(2) == 0 {
-				s.Cmd = absCmd{Kind: "time", Spec: false}
-			} else {
-				s.Cmd = rndCmd(r)
-				if s.Cmd.Kind == "insert" {
-					s.Cmd.Cancel, s.Cmd.Program, s.Cmd.Immediate, s.Cmd.Spec = false, true, false, false
-				}
+		emit([]Ev{c08Item(r, sel, tier)})
+	}
+}
+
+// c08Item draws one decode event from r; sel picks the variant (19: long section, 20..24: rejection classes and
+// special commands, anything else: an ordinary section).  r may be driven by a fuzzer's bytes (byteSrc).
+func c08Item(r *rand.Rand, sel int, tier string) Ev {
+	s := rndSig(r)
+	switch sel {
+	case 19:
+		// sections longer than 1023 bytes (section_length is a 12-bit field, up to 4093):
+		// several descriptors with long UPIDs, or a component splice with many components
+		target := []int{1024, 1030, 1100, 1500, 2048, 2100, 3000, 4000}[r.Intn(8)]
+		if tier != "thorough" && r.Intn(3) != 0 {
+			target = 1024 + r.Intn(300)
+		}
+		growSig(r, &s, target)
+	case 20:
+		s.Cmd = absCmd{Kind: "other", Type: []int{4, 7, 255, 1, 8}[r.Intn(5)], Body: rndBytes(r, r.Intn(12))}
+	case 21:
+		s.Enc = true
+	case 22:
+		s.TableId = []int{0x00, 0x02, 0xfb, 0xfd, 0xff}[r.Intn(5)]
+	case 23:
+		d := rndSeg(r)
+		d.Ident = [][]byte{[]byte("CUEJ"), []byte("cuei"), {0, 0, 0, 0}, []byte("DVBI")}[r.Intn(4)]
+		s.Descs = append(s.Descs, d)
+	case 24:
+		if r.Intn(2) == 0 {
+			s.Cmd = absCmd{Kind: "time", Spec: false}
+		} else {
+			s.Cmd = rndCmd(r)
+			if s.Cmd.Kind == "insert" {
+				s.Cmd.Cancel, s.Cmd.Program, s.Cmd.Immediate, s.Cmd.Spec = false, true, false, false
 			}
 		}
-		ptr := []int{0, 0, 0, 1, 2, 5}[r.Intn(6)]
-		b := append(append([]byte{byte(ptr)}, bytes.Repeat([]byte{0xff}, ptr)...), s.section()...)
-		emit([]Ev{{"op": "decode", "abs": s.ev(), "ptr": ptr, "bytes": B(b)}})
+	}
+	ptr := []int{0, 0, 0, 1, 2, 5}[r.Intn(6)]
+	b := append(append([]byte{byte(ptr)}, bytes.Repeat([]byte{0xff}, ptr)...), s.section()...)
+	return Ev{"op": "decode", "abs": s.ev(), "ptr": ptr, "bytes": B(b)}
+}
+
+// GenRows: the fuzzer's bytes drive the same generator (structured, coverage-guided choice of well-formed sections).
+func (c08) GenRows(rows []Ev, tier string, seed int64, emit func([]Ev)) {
+	for _, row := range rows {
+		sel := GI(row["opi"]) % 25
+		if sel == 19 {
+			sel = 0 // long sections stay with the deterministic generator
+		}
+		emit([]Ev{c08Item(rand.New(&byteSrc{b: GB(row["in"])}), sel, "quick")})
 	}
 }
 
